@@ -212,6 +212,8 @@ func c01Scenarios(tier string) []*world.Scenario {
 		}
 		out = append(out, SlowMultiFlush("C01", sz, b))
 	}
+	// more replies / fragments than one vectored write takes (1024 slices)
+	out = append(out, BigBatch("C01", 1100, false, 1), BigBatch("C01", 1100, true, 1), BigBatch("C01", 2100, false, 0))
 	// multi-key requests that can only be routed in part (one key in an unowned range) are answered locally
 	// while an already routed fragment is still in flight; everything after them must still be answered in order
 	out = append(out, c01Partial(tier)...)
